@@ -115,3 +115,16 @@ Definition run (results : list string) (body : list stmt) (st : state) : state *
 Lemma truthy_b2z b : truthy (b2z b) = b.
 Proof. destruct b; reflexivity. Qed.
 End Interp.
+
+(* ---- symbolic execution for the per-function theorems: evaluate as far as possible, split on every test that
+   the state does not decide, close the leaves by computation / linear arithmetic.  Written so that a harmless
+   rewrite of the translated function (an extra temporary, independent assignments swapped, a test expressed the
+   other way round) is still proved by the same script. *)
+Ltac golite_eval := repeat (cbn [exec exec_s eval get put assign locals fields events inputs String.eqb Ascii.eqb Bool.eqb
+                                 map tl app negb andb orb fst snd existsb last]; rewrite ?truthy_b2z).
+Ltac golite_cases :=
+  repeat (golite_eval;
+          match goal with
+          | |- context [truthy ?x] => unfold truthy
+          | |- context [if ?b then _ else _] => let E := fresh "E" in destruct b eqn:E
+          end).
